@@ -8,6 +8,7 @@ from xml.sax.saxutils import escape
 PREAMBLE = ("int i;\nint j = 1;\nclock x;\nchan c;\nbroadcast chan b;\nconst int N = 2;\nint a[3];\n"
             "typedef int[0,2] id_t;\nbool pos(int v) { return v > 0; }\n")
 BASE_FUNS = ["pos"]
+ACTIONS = ["GDecl", "OpenTemplate", "LDecl", "AddLoc", "AddBp", "SetInit", "AddEdge", "Label", "StartSystem", "AddInst", "AddProc", "AddSysX", "Finish"]
 BUILTIN_TYPES = ["int8_t", "uint8_t", "int16_t", "uint16_t", "int32_t"]
 
 PROFILES = {
@@ -31,7 +32,12 @@ def generate(c, profiles, num, seed, bfs=True, module="DocGen", bfs_budget=2, in
     seen, out = set(), []
     env = {"LR_TABLES": os.path.join(vf.lib_dir("plain"), "gen", "lr_tables.json")} if module == "Mirror" else None       # Mirror.tla instantiates LR.tla
 
+    cov_on = module == "DocGen"          # (the composed modules carry the LR tables as constants: coverage instrumentation exhausts the heap there)
+    taken = {}
+
     def take(r):
+        for a, (tk, gen) in r.coverage.items():
+            taken[a] = taken.get(a, 0) + tk
         if r.violated == "WellFormed":
             raise vf.MachineryError("the model generator violates its own sanity invariant WellFormed")
         if r.violated:
@@ -47,16 +53,22 @@ def generate(c, profiles, num, seed, bfs=True, module="DocGen", bfs_budget=2, in
     if bfs:
         cfg = os.path.join(c.run_dir, "DocGen_bfs.cfg")
         _cfg(cfg, dict(BFS, Budget=bfs_budget), invariants)
-        r = vf.run_tlc(module, cfg, c.run_dir, timeout=1500, xmx="12g", keep_out=False, env=env)
+        r = vf.run_tlc(module, cfg, c.run_dir, timeout=1500, xmx="12g", keep_out=False, env=env, coverage=cov_on)
         c.add_tlc("DocGen_bfs", r, "exhaustive: every model of 1 template reachable with %d budgeted elements beyond the first location (first pool entries)" % bfs_budget)
         take(r)
         c.cov["bfs_models"] = len(out)
     for p in profiles:
         cfg = os.path.join(c.run_dir, "DocGen_%s.cfg" % p)
         _cfg(cfg, PROFILES[p], invariants)
-        r = vf.run_tlc(module, cfg, c.run_dir, simulate=max(1, num // 8), depth=60, seed=seed, workers=8, timeout=1500, keep_out=False, env=env)
+        r = vf.run_tlc(module, cfg, c.run_dir, simulate=max(1, num // 8), depth=60, seed=seed, workers=8, timeout=1500, keep_out=False, env=env, coverage=cov_on)
         c.add_tlc("DocGen_sim_" + p, r, "random walks of the author state machine, profile " + p)
         take(r)
+    if cov_on:
+        # vacuity: every action of the author state machine was taken in some run (TLC -coverage)
+        never = sorted(a for a in ACTIONS if taken.get(a, 0) == 0)
+        c.cov["docgen_actions_taken"] = {a: taken.get(a, 0) for a in ACTIONS}
+        if never:
+            raise vf.MachineryError("DocGen.tla: actions never taken in any run: %s" % never)
     return out
 
 
